@@ -136,6 +136,14 @@ func worker(a []string) {
 	n, _ := strconv.Atoi(a[3])
 	c := &core.Ctx{Prop: a[0], Tier: a[1], Seed: seed(), Shard: shard, NShards: n,
 		Deadline: time.Now().Add(deadlineFor(a[1])), Verbose: os.Getenv("PVMC_VERBOSE") != ""}
+	// the deadline is honoured between scenarios; a scenario that never returns (a daemon under test spinning
+	// without ever asking for the heights) must still end the worker: no verdict (exit 3), but the check terminates
+	time.AfterFunc(time.Until(c.Deadline)+4*time.Minute, func() {
+		buf := make([]byte, 1<<16)
+		n := runtime.Stack(buf, true)
+		fmt.Fprintf(os.Stderr, "worker %d: a scenario did not return %v after the deadline; goroutines:\n%s\n", shard, 4*time.Minute, buf[:n])
+		os.Exit(3)
+	})
 	r := core.NewResult(a[0])
 	func() {
 		defer func() {
